@@ -262,6 +262,8 @@ def gen_config(ch, bias=None):
     cfg['divmod'] = dm
     if code in CUSTOM_CODES:
         cfg['custom'] = gen_custom(ch, code, bias)
+    if bias.get('allow_raw_lists'):
+        cfg['raw_lists'] = ch.chance('cfg.raw_lists', 1, 3)
     if bias.get('ctor_variety') and code in PREDEFINED:
         cfg['ctor'] = ch.choice('cfg.ctor', ('call', 'call', 'create_pos', 'create_kw', 'call_kw'))
     if bias.get('big_mults') and code in PREDEFINED and PREDEFINED[code][1] != 'minbet':
@@ -361,6 +363,11 @@ def build(cfg, autos_mask=None):
     antes = conv_values(cfg, cfg['antes'])
     blinds = conv_values(cfg, cfg['blinds'])
     stacks = tuple(conv_stack(cfg, s) for s in cfg['stacks'])
+    if cfg.get('raw_lists'):
+        # the documented "values-like" arguments given as lists (which a careless helper might modify in place)
+        antes = list(antes) if isinstance(antes, tuple) else antes
+        blinds = list(blinds) if isinstance(blinds, tuple) else blinds
+        stacks = list(stacks)
     kw = dict(mode=mode, starting_board_count=cfg['sbc'], divmod=make_divmod(cfg), rake=make_rake(cfg))
     code = cfg['variant']
     if code in PREDEFINED:
